@@ -35,7 +35,9 @@ def mk_conf_group(repo, cname, gi, partner):
     return g
 
 
-def task_average(pr, repo, nconf):
+def task_average(pr, repo, nconf, clauses=('census', 'means', 'marks')):
+    """clauses: which obligations to state - importing properties that speak only about WHICH groups are reported ('census') or about
+    the coupling marks ('marks') do not take the arithmetic-mean clauses along."""
     ex = Executor(repo)
     fi = repo.func(MC + '.average_of_conformations')
     pr.under_contract(fi)
@@ -73,7 +75,8 @@ def task_average(pr, repo, nconf):
                     g.attrs['non_covalently_coupled_groups'].append(partner)
             marks_before = {k: list(g.attrs['non_covalently_coupled_groups']) for k, g in allg.items()}
             ex.call_function(fi, [], self_obj=mol)
-            ctx.oblige('AV%s: the conformations keep their own coupling marks (a group that is coupled only in a later conformation '
+            if 'marks' in clauses:
+              ctx.oblige('AV%s: the conformations keep their own coupling marks (a group that is coupled only in a later conformation '
                        'does not become coupled in an earlier one)' % (pat,),
                        all(len(g.attrs['non_covalently_coupled_groups']) == len(marks_before[k])
                            and all(x is y for x, y in zip(g.attrs['non_covalently_coupled_groups'], marks_before[k]))
@@ -86,9 +89,10 @@ def task_average(pr, repo, nconf):
             exp = [gi for gi in range(2) if any(pres[(gi, c)] for c in names)]
             got = [[a for a in ag if a.attrs['atom'].attrs['res_num'] == 10 + gi] for gi in range(2)]
             census = all(len(got[gi]) == (1 if gi in exp else 0) for gi in range(2)) and len(ag) == len(exp)
-            ctx.oblige('AV%s: exactly one averaged group for each group that exists in at least one conformation, no other' % (pat,),
-                       census)
-            if not census:
+            if 'census' in clauses:
+                ctx.oblige('AV%s: exactly one averaged group for each group that exists in at least one conformation, no other' % (pat,),
+                           census)
+            if not census or 'means' not in clauses:
                 return
             conj = []
             for gi in exp:
